@@ -46,6 +46,9 @@ pub enum ROp {
 pub struct Case {
     pub wops: Vec<WOp>,
     pub rops: Vec<ROp>,
+    /// maximum transfer sizes of the device (cyclic); empty = whole transfers
+    #[serde(default)]
+    pub chunks: Vec<u16>,
 }
 
 const ALPHABET: [WOp; 20] = [
@@ -120,8 +123,9 @@ fn check_device(dev: &MemDev, m: &Model, at: &str) -> Result<(), String> {
     Ok(())
 }
 
-fn run_writer(ops: &[WOp], v: &mut Verdict) -> Result<Vec<u8>, String> {
+fn run_writer(ops: &[WOp], chunks: &[u16], v: &mut Verdict) -> Result<Vec<u8>, String> {
     let dev = MemDev::new();
+    dev.st.borrow_mut().chunks = chunks.iter().map(|c| *c as usize).collect();
     let h = dev.handle();
     let mut w = PagedWriter::new(dev).map_err(|e| format!("PagedWriter::new: {e}"))?;
     let mut m = Model { stream: Vec::new(), cursor: 0 };
@@ -214,10 +218,13 @@ fn run_writer(ops: &[WOp], v: &mut Verdict) -> Result<Vec<u8>, String> {
                         }
                     }
                     (Err(_), false) => {
-                        v.label("invalid_seek_rejected");
-                        // the library never continues after a failed seek: end of history
-                        drop(w);
-                        return Ok(MemDev::bytes(&h));
+                        // a rejected seek writes nothing and moves nothing (apart from the flush it may have done): the history goes on
+                        v.nt("invalid_seek_rejected_history_continues");
+                        check_device(&h, &m, &at)?;
+                        let q = w.physical_position().map_err(|e| format!("{at}: physical_position failed: {e}"))?;
+                        if q != log_to_phys(m.cursor as u64) {
+                            return Err(format!("{at}: the rejected seek to {p} moved the position from {} to {q}", log_to_phys(m.cursor as u64)));
+                        }
                     }
                     (Ok(()), false) => return Err(format!("{at}: seek to invalid position {p} (device size {}) succeeded", m.phys_size())),
                     (Err(e), true) => return Err(format!("{at}: seek to valid position {p} (device size {}) failed: {e}", m.phys_size())),
@@ -233,7 +240,7 @@ fn run_writer(ops: &[WOp], v: &mut Verdict) -> Result<Vec<u8>, String> {
     Ok(m.stream)
 }
 
-fn run_reader(stream: &[u8], ops: &[ROp], v: &mut Verdict) -> Result<(), String> {
+fn run_reader(stream: &[u8], ops: &[ROp], chunks: &[u16], v: &mut Verdict) -> Result<(), String> {
     if stream.is_empty() {
         return Ok(());
     }
@@ -241,7 +248,9 @@ fn run_reader(stream: &[u8], ops: &[ROp], v: &mut Verdict) -> Result<(), String>
     let mut log = stream.to_vec();
     log.resize(file.len() / PAGE * PAYLOAD, 0);
     let m = Model { stream: stream.to_vec(), cursor: 0 };
-    let mut r = PagedReader::new(MemDev::with_data(file.clone()), PAGE as u64).map_err(|e| format!("PagedReader::new: {e}"))?;
+    let rdev = MemDev::with_data(file.clone());
+    rdev.st.borrow_mut().chunks = chunks.iter().map(|c| *c as usize).collect();
+    let mut r = PagedReader::new(rdev, PAGE as u64).map_err(|e| format!("PagedReader::new: {e}"))?;
     let mut cur = 0usize;
     for (step, op) in ops.iter().enumerate() {
         let at = format!("reader step {step} {op:?}");
@@ -347,7 +356,7 @@ impl Check for C11 {
          payload byte of the last page, last written byte, device end, inside a checksum; flush, align, position, size), random histories up to 40 \
          steps beyond (n in {0,1,3,4,5,16,32,48,1019,1020,1021,2039,2040,2041} u random <= 3000; p from the same symbolic targets, beyond the end, \
          or absolute). After every step positions/sizes equal the model; at every flush point the device is whole pages with valid CRC-32C \
-         (e57ref, bit-serial) whose payload is the zero-filled logical stream. A failed (invalid) seek ends the history. Each resulting stream is \
+         (e57ref, bit-serial) whose payload is the zero-filled logical stream. A rejected (invalid) seek must leave position and device untouched and the history continues. 1 random history in 4 runs on a device that serves short reads and writes. Each resulting stream is \
          then read back through PagedReader under a generated history of {seek_physical, read(n) to completion, single read, align}. \
          Non-trivial: a write after a backward seek crossing a page boundary, a write after a flush of a partial page, a seek to the device end, \
          or a read crossing a page boundary."
@@ -372,7 +381,7 @@ impl Check for C11 {
                 ops.push(ALPHABET[k % n]);
                 k /= n;
             }
-            out.push(Case { wops: ops, rops: rops.clone() });
+            out.push(Case { wops: ops, rops: rops.clone(), chunks: vec![] });
         }
         out
     }
@@ -402,12 +411,13 @@ impl Check for C11 {
                 _ => ROp::Align,
             });
         }
-        Case { wops, rops }
+        let chunks = if s.chance(1, 4) { (0..1 + s.below(3)).map(|_| *s.pick(&[1u16, 3, 100, 512, 1000, 1023, 1024, 1500])).collect() } else { vec![] };
+        Case { wops, rops, chunks }
     }
     fn run(case: &Case) -> Verdict {
         let mut v = Verdict::new();
         let mut v2 = Verdict::new();
-        match guard(|| run_writer(&case.wops, &mut v2)) {
+        match guard(|| run_writer(&case.wops, &case.chunks, &mut v2)) {
             Err(p) => {
                 v.fail(format!("page writer panicked: {p}"));
                 return v;
@@ -419,10 +429,9 @@ impl Check for C11 {
             Ok(Ok(stream)) => {
                 v.labels = v2.labels.clone();
                 v.nontrivial = v2.nontrivial;
-                // the failed-seek path returns raw device bytes; only model streams are read back
-                if !v.labels.iter().any(|l| l == "invalid_seek_rejected") {
+                {
                     let mut v3 = Verdict::new();
-                    match guard(|| run_reader(&stream, &case.rops, &mut v3)) {
+                    match guard(|| run_reader(&stream, &case.rops, &case.chunks, &mut v3)) {
                         Err(p) => v.fail(format!("page reader panicked: {p}")),
                         Ok(Err(e)) => v.fail(e),
                         Ok(Ok(())) => {
